@@ -84,6 +84,16 @@ fn span_when_sync(env: &Env, node: &PNode) {
     run_sync(env, &node.items);
 }
 
+#[emit::span(rt: env.rt, ok_lvl: emit::Level::Debug, mdl: emit::Path::new_raw(node.mdl), "result_sync")]
+fn span_result_sync(env: &Env, node: &PNode) -> Result<(), std::io::Error> {
+    check(env, node.pre);
+    run_sync(env, &node.items);
+    if node.id % 2 == 1 {
+        return Err(std::io::Error::new(std::io::ErrorKind::Other, "odd node"));
+    }
+    Ok(())
+}
+
 // ---------------------------------------------------------------------------------------------
 // span call sites, async
 
@@ -112,6 +122,16 @@ async fn span_guard_async(env: &Env<'_>, node: &PNode) {
     span.complete();
 }
 
+#[emit::span(rt: env.rt, err_lvl: emit::Level::Warn, mdl: emit::Path::new_raw(node.mdl), "result_async")]
+async fn span_result_async(env: &Env<'_>, node: &PNode) -> Result<(), std::io::Error> {
+    check(env, node.pre);
+    run_async(env, &node.items).await;
+    if node.id % 2 == 1 {
+        return Err(std::io::Error::new(std::io::ErrorKind::Other, "odd node"));
+    }
+    Ok(())
+}
+
 // ---------------------------------------------------------------------------------------------
 // dispatch
 
@@ -122,8 +142,11 @@ fn span_sync(env: &Env, node: &PNode) {
         Form::ManualEnter => span_manual_enter(env, node),
         Form::GuardSync => span_guard_sync(env, node),
         Form::WhenSync => span_when_sync(env, node),
+        Form::ResultSync => {
+            let _ = span_result_sync(env, node);
+        }
         // an async span started from synchronous code: driven to completion right here
-        Form::AsyncFn | Form::ManualFuture | Form::GuardAsync => block_on(span_async(env, node)),
+        Form::AsyncFn | Form::ManualFuture | Form::GuardAsync | Form::ResultAsync => block_on(span_async(env, node)),
     }
 }
 
@@ -132,6 +155,9 @@ fn span_async<'a>(env: &'a Env<'a>, node: &'a PNode) -> BoxFut<'a> {
         Form::AsyncFn => Box::pin(span_async_fn(env, node)),
         Form::ManualFuture => Box::pin(span_manual_future(env, node)),
         Form::GuardAsync => Box::pin(span_guard_async(env, node)),
+        Form::ResultAsync => Box::pin(async move {
+            let _ = span_result_async(env, node).await;
+        }),
         // a synchronous span inside async code runs within one poll
         _ => Box::pin(async move { span_sync(env, node) }),
     }
@@ -151,8 +177,8 @@ pub fn run_sync(env: &Env, items: &[PItem]) {
                 hop(env, *carry, *fut, items, *pre);
                 check(env, *post);
             }
-            PItem::Join { carry, tasks, schedule, post } => {
-                block_on(join(spawn_tasks(env, *carry, tasks), schedule));
+            PItem::Join { carry, migrate, tasks, schedule, post } => {
+                block_on(join(spawn_tasks(env, *carry, tasks), schedule, *migrate, env.fail));
                 check(env, *post);
             }
         }
@@ -174,8 +200,8 @@ pub fn run_async<'a>(env: &'a Env<'a>, items: &'a [PItem]) -> BoxFut<'a> {
                     hop(env, *carry, *fut, items, *pre);
                     check(env, *post);
                 }
-                PItem::Join { carry, tasks, schedule, post } => {
-                    join(spawn_tasks(env, *carry, tasks), schedule).await;
+                PItem::Join { carry, migrate, tasks, schedule, post } => {
+                    join(spawn_tasks(env, *carry, tasks), schedule, *migrate, env.fail).await;
                     check(env, *post);
                 }
             }
